@@ -35,6 +35,25 @@ def worker(job):
             ext, outs, final = asyncio.run(l3.run_real(nsess, prog))
             done.append((nsess, ext, outs, final))
     l3.judge(part, done, 'C01')
+    # maildir (no model: sessions do not share their selections there): the shadow client alone.  Messages travel between two mailboxes and back - a file that
+    # returns keeps its name, and whatever the source still remembers about it must not bring an old number back to life under the sessions that watched it go
+    for k in range(max(6, ncases // 3)):
+        nsess = r.choice([2, 2, 3])
+        prof = dict(PROFILE, main_box=0, weights=dict(PROFILE.get('weights', {}), move=22, copy=6, select=10, noop=14, expunge=4, append=8, store=6, fetch=10, check=0))
+        prog = l3.gen_program(r, nsess, r.randint(8, maxlen + 6), prof, uid_base=0)
+        # one session sits in the other mailbox and sends things back
+        prog[nsess - 1:nsess] = [['select', nsess - 1, 1, False]]
+        prog = [(['copy', nsess - 1, True, op[3], op[4], 0, op[6]] if op[0] == 'copy' and op[1] == nsess - 1 else op) for op in prog]
+        prog = [(op[:5] + [1] + op[6:] if op[0] == 'copy' and op[1] != nsess - 1 and op[2] else op) for op in prog]
+        backend = r.choice(['maildir', 'maildir-fs'])
+        with guarded(part, 'C01 maildir run', dict(nsess=nsess, program=prog, backend=backend)):
+            ext, outs, final = asyncio.run(l3.run_real(nsess, l3.final_probes(prog, nsess), backend=backend))
+            case = dict(nsess=nsess, program=ext, backend=backend)
+            canon, errors, nt, shadows = l3.analyse(nsess, ext, outs)
+            for e in errors:
+                part.violation('monitor', f'{backend}: {e}', case, signature='shadow')
+            part.case(key=backend + repr(ext), nontrivial=bool(nt), sample=dict(backend=backend, nsess=nsess, program=[' '.join(map(str, o)) for o in ext[:10]]))
+            part.stat('backend:' + backend)
     l1_sync(part, random.Random(seed + 5), ncases * 3)
     return part.result()
 
